@@ -365,6 +365,16 @@ impl C20 {
             match kind {
                 0 | 1 => {
                     let (_, mut text) = self.gen_text(t);
+                    if let (Some(prev), true) = (open.get(&doc), t.chance(1, 4)) {
+                        // the same text moved: every binding keeps its name and type but not its place
+                        text = match t.choice(5) {
+                            0 => format!("\n\n{}", prev),
+                            1 => format!("// moved down\n// by two lines\n{}", prev),
+                            2 => format!("   {}", prev),
+                            3 => prev.trim_start().to_string(),
+                            _ => prev.replacen(";\n", ";\n\n\n", 1),
+                        };
+                    }
                     if doc == DISK_DOC {
                         // a file importing itself is an import cycle: out of scope
                         text = text.replace("disk.ucg", "lib.ucg");
